@@ -802,6 +802,8 @@ class ObjRunner:
                 not args or (isinstance(call.args[0], ast.Name) and call.args[0].id in ("list", "dict", "set", "int", "float", "str")) or args[0] is None):
             fac = {"list": list, "dict": dict, "set": set, "int": int, "float": float, "str": str}.get(call.args[0].id) if args and args[0] is not None else None
             return DefaultDictModel(fac, *args[1:])
+        if name == "slice" and name not in interp.env and 1 <= len(args) <= 3 and not kw and all(a is None or isinstance(a, int) for a in args):
+            return slice(*args)
         if name == "id" and name not in interp.env and len(args) == 1 and not kw and not isinstance(args[0], Unknown):
             return id(args[0])  # identity of the model object: equal for the same object, different for different live objects - all a program may rely on
         if name in ("set", "frozenset", "dict") and name not in interp.env and len(args) <= 1 and not kw:
